@@ -147,6 +147,14 @@ func (m *Machine) call(caller *frame, callpos token.Pos, fn value, args []value)
 
 func (m *Machine) callSSA(caller *frame, callpos token.Pos, fn *ssa.Function, args []value, env []value) value {
 	fr := &frame{m: m, caller: caller, fn: fn}
+	if m.SummarizeGFMul && fn.Name() == "Multiply" && fn.String() == "(*"+gfType+").Multiply" {
+		if _, s1 := args[1].(*term.Term); s1 {
+			return m.gfMulSummary(fr, args)
+		}
+		if _, s2 := args[2].(*term.Term); s2 {
+			return m.gfMulSummary(fr, args)
+		}
+	}
 	if fn.Parent() == nil {
 		name := fn.String()
 		if ext := externals[name]; ext != nil {
@@ -1074,4 +1082,38 @@ func (m *Machine) simpleFunc(f *ssa.Function, depth int) bool {
 	visit(f.Blocks[0])
 	m.simpleFn[f] = ok
 	return ok
+}
+
+
+const gfType = "github.com/makiuchi-d/gozxing/common/reedsolomon.GenericGF"
+
+// gfMulSummary replaces the table-driven GenericGF.Multiply by the polynomial product modulo the
+// field polynomial (read from the receiver). Validated for every field by the C04 field harnesses.
+func (m *Machine) gfMulSummary(fr *frame, args []value) value {
+	recv := args[0].(*value)
+	st := (*recv).(structure)
+	// struct GenericGF { expTable, logTable, zero, one, size, primitive, generatorBase }
+	size := int(asInt64(st[4]))
+	prim := uint64(asInt64(st[5]))
+	mbits := 0
+	for 1<<uint(mbits) < size {
+		mbits++
+	}
+	c := m.C
+	a, b := m.term(args[1]), m.term(args[2])
+	if _, ok := args[1].(*term.Term); ok {
+		if _, ok2 := args[2].(*term.Term); !ok2 {
+			a, b = b, a // keep the concrete operand as the multiplier
+		}
+	}
+	p := c.BV(64, 0)
+	one := c.BV(64, 1)
+	for i := mbits - 1; i >= 0; i-- {
+		p = c.Bin(term.OBvShl, p, one)
+		top := c.Bin(term.OBvAnd, c.Bin(term.OBvLShr, p, c.BV(64, uint64(mbits))), one)
+		p = c.Bin(term.OBvXor, p, c.Bin(term.OBvAnd, c.BV(64, prim), c.Un(term.OBvNeg, top)))
+		abit := c.Bin(term.OBvAnd, c.Bin(term.OBvLShr, a, c.BV(64, uint64(i))), one)
+		p = c.Bin(term.OBvXor, p, c.Bin(term.OBvAnd, b, c.Un(term.OBvNeg, abit)))
+	}
+	return lowerTerm(p, types.Typ[types.Int])
 }
